@@ -40,6 +40,15 @@ type observation struct {
 	NonTriv   bool
 }
 
+// query builds a plain query message (dns.Msg.SetQuestion would take a fresh
+// message id from crypto/rand - one getrandom system call per query).
+func query(name string, qtype uint16) *dns.Msg {
+	m := new(dns.Msg)
+	m.Id = 4242
+	m.Question = []dns.Question{{Name: name, Qtype: qtype, Qclass: dns.ClassINET}}
+	return m
+}
+
 func backendOf(name string) dnsfix.Backend {
 	for _, b := range dnsfix.Backends {
 		if b.String() == name {
@@ -64,7 +73,7 @@ func (w *world) keyDraws(s slot, cl string) (int, bool) {
 	}
 	src.load(nil)
 	qn, qt := s.query()
-	w.h.Serve(dnsfix.Query(qn, qt), clientIP[cl], false, 1)
+	w.h.Serve(query(qn, qt), clientIP[cl], false, 1)
 	v := src.taken()
 	if w.nk == nil {
 		w.nk = map[string]int{}
@@ -93,7 +102,7 @@ func serve(w *world, s slot, cl string, m int, keys, shuffle []uint32) observati
 	if s.Sect != "answer" {
 		mm = 3 // the additional section is limited to one per family whatever the context says
 	}
-	res := w.h.Serve(dnsfix.Query(qn, qt), clientIP[cl], false, mm)
+	res := w.h.Serve(query(qn, qt), clientIP[cl], false, mm)
 	o := observation{Taken: src.taken()}
 	if aligned {
 		// the draws the code took must be the ones the script was written for
@@ -339,6 +348,15 @@ func (c ecase) sub(idx []int) ecase {
 // minimise returns a sub-case of smallest cardinality that fails the same
 // clause (all subsets are tried in increasing size; the case itself if none).
 func (c ecase) minimise(kind string) ecase {
+	// a case asked of a target that carries both families first shrinks to the
+	// same candidates declared in one family only (its own slot of the data file)
+	if c.Fam == 0 {
+		for _, f := range []int{4, 6} {
+			if p := c.project(f); p.fails(kind) {
+				return p.minimise(kind)
+			}
+		}
+	}
 	n := len(c.Set)
 	for size := 1; size < n; size++ {
 		idx := make([]int, size)
@@ -360,10 +378,28 @@ func (c ecase) minimise(kind string) ecase {
 			return nil
 		}
 		if r := rec(0, 0); r != nil {
+			if c.Fam == 0 {
+				return r.minimise(kind)
+			}
 			return *r
 		}
 	}
 	return c
+}
+
+// project keeps the rows of one family of a both-family case.
+func (c ecase) project(f int) ecase {
+	d := c
+	d.Fam = f
+	d.Draws = make([][]string, len(c.Draws))
+	k := 0
+	if f == 6 {
+		k = 1
+	}
+	for i := range c.Draws {
+		d.Draws[i] = []string{c.Draws[i][k]}
+	}
+	return d
 }
 
 // ---- enumeration ----
@@ -392,21 +428,139 @@ func pow5(n int) int64 {
 	return p
 }
 
+func emit(r *vlib.Run, mc ecase, kind string, larger string) {
+	fp := fmt.Sprintf("e2e/%s/%s/%s/%s", kind, sectName(slot{mc.Sect, mc.Fam}), mc.Backend, mc.candText())
+	if r.Has(fp) {
+		return
+	}
+	mo := mc.run()
+	r.Violate(fp, fmt.Sprintf("clause %q violated in the %s section (backend %s, client location %q, family %d, maxAnswer %d): candidates %s [weight@tag:draw]; visible=%d positive-weight=%d want %d address(es), got %v; rcode %s\n%s\n(first seen in the larger case %s)",
+		kind, mc.Sect, mc.Backend, mc.Client, mc.Fam, mc.M, mc.candText(), mo.Visible, mo.Positive, mo.Want, mo.Addrs, mo.Rcode, mo.canon(), larger),
+		map[string]interface{}{"part": "e2e", "kind": kind, "case": mc})
+}
+
+var kindIndex = map[string]uint64{"foreign": 1, "repeat": 2, "weight0-served": 3, "count/short": 4, "count/long": 5}
+var sectIndex = map[string]uint64{"answer": 0, "mx": 1, "ns": 2}
+var drawIndex = map[uint32]uint64{0: 1, 1: 2, 1 << 31: 3, 1<<32 - 2: 4, 1<<32 - 1: 5}
+var symIndex = func() map[sym]uint64 {
+	m := map[sym]uint64{}
+	for i, a := range alphabet {
+		m[a] = uint64(i)
+	}
+	return m
+}()
+
+// single-candidate sub-cases: 1 = fails, 2 = passes; and whether already reported
+var singleMemo = map[uint64]uint8{}
+var singleReported = map[uint64]bool{}
+
+// fastReport handles the common situation in which ONE candidate with its own
+// draw already violates the clause on its own (sub-case of size 1): integer-keyed
+// memo instead of building the canonical text of every failing evaluation.
+func fastReport(r *vlib.Run, w *world, s slot, cl string, m int, keys []uint32, kind string) bool {
+	ki, ok := kindIndex[kind]
+	if !ok {
+		return false
+	}
+	rows := w.drawRows(s, cl)
+	var di [8][2]uint64
+	if len(w.set) > len(di) {
+		return false
+	}
+	for j, rw := range rows {
+		if rw.Cand < 0 {
+			continue
+		}
+		d, ok := drawIndex[keys[j]]
+		if !ok {
+			return false
+		}
+		k := 0
+		if rw.Fam == 6 {
+			k = 1
+		}
+		di[rw.Cand][k] = d
+	}
+	clb := uint64(0)
+	if cl != "" {
+		clb = 1
+	}
+	projs := []int{s.Fam}
+	if s.Fam == 0 {
+		projs = []int{4, 6, 0}
+	}
+	for i, c := range w.set {
+		si, ok := symIndex[c]
+		if !ok {
+			return false
+		}
+		for _, f := range projs {
+			d4, d6 := di[i][0], di[i][1]
+			if f == 4 {
+				d6 = 0
+			}
+			if f == 6 {
+				d4 = 0
+			}
+			if d4 == 0 && d6 == 0 {
+				continue // no visible row of this candidate in this projection
+			}
+			pk := uint64(w.backend)<<40 | sectIndex[s.Sect]<<36 | uint64(f)<<32 | clb<<28 | uint64(m)<<24 | ki<<20 | si<<16 | d4<<8 | d6
+			st := singleMemo[pk]
+			var sc ecase
+			build := func() ecase {
+				e := ecase{Set: []sym{c}, Backend: w.backend.String(), Sect: s.Sect, Fam: f, Client: cl, M: m}
+				txt := func(d uint64) string {
+					if d == 0 {
+						return "-"
+					}
+					return fmt.Sprint(drawAlphabet[d-1])
+				}
+				switch f {
+				case 4:
+					e.Draws = [][]string{{txt(d4)}}
+				case 6:
+					e.Draws = [][]string{{txt(d6)}}
+				default:
+					e.Draws = [][]string{{txt(d4), txt(d6)}}
+				}
+				return e
+			}
+			if st == 0 {
+				sc = build()
+				st = 2
+				if sc.fails(kind) {
+					st = 1
+				}
+				singleMemo[pk] = st
+			}
+			if st == 1 {
+				if !singleReported[pk] {
+					singleReported[pk] = true
+					emit(r, build(), kind, attach(w, s, cl, m, keys, nil).candText())
+				}
+				return true
+			}
+		}
+	}
+	return false
+}
+
 func report(r *vlib.Run, w *world, s slot, cl string, m int, keys, shuffle []uint32, o observation) {
-	c := attach(w, s, cl, m, keys, shuffle)
+	var c *ecase
 	for _, kind := range o.Kinds {
-		mc := c
+		if shuffle == nil && len(w.set) > 1 && fastReport(r, w, s, cl, m, keys, kind) {
+			continue
+		}
+		if c == nil {
+			x := attach(w, s, cl, m, keys, shuffle)
+			c = &x
+		}
+		mc := *c
 		if kind != "noresponse" {
 			mc = c.minimise(kind)
 		}
-		fp := fmt.Sprintf("e2e/%s/%s/%s/%s", kind, sectName(s), mc.Backend, mc.candText())
-		if r.Has(fp) {
-			continue
-		}
-		mo := mc.run()
-		r.Violate(fp, fmt.Sprintf("clause %q violated in the %s section (backend %s, client location %q, family %d, maxAnswer %d): candidates %s [weight@tag:draw]; visible=%d positive-weight=%d want %d address(es), got %v; rcode %s\n%s\n(first seen in the larger case %s)",
-			kind, mc.Sect, mc.Backend, mc.Client, mc.Fam, mc.M, mc.candText(), mo.Visible, mo.Positive, mo.Want, mo.Addrs, mo.Rcode, mo.canon(), c.candText()),
-			map[string]interface{}{"part": "e2e", "kind": kind, "case": mc})
+		emit(r, mc, kind, c.candText())
 	}
 }
 
